@@ -4,10 +4,21 @@
 //! may have finished before it; `accept` returns the first message, the receiver yields the rest in order and then
 //! disconnection; many servers alive at once have distinct names and do not disturb one another.
 use crate::util::*;
-use ipc_channel::ipc::{self, IpcOneShotServer, IpcSender};
+use ipc_channel::ipc::{self, IpcOneShotServer, IpcSender, IpcSharedMemory};
 use std::time::Duration;
 
-type Msg = (u64, Vec<u8>, Option<IpcSender<u64>>);
+type Msg = (u64, Vec<u8>, Option<IpcSender<u64>>, Vec<IpcSharedMemory>);
+
+/// contents of shared memory region `r` of message `t` (length 0 for some: the empty region travels without an attachment)
+fn region(t: u64, r: u64, shape: u64) -> Vec<u8> {
+    let len = match (t + r + shape) % 4 {
+        0 => 0,
+        1 => 1,
+        2 => 4096,
+        _ => 70_000,
+    };
+    (0..len).map(|j| (t as u8).wrapping_mul(7).wrapping_add(r as u8).wrapping_add((j % 253) as u8)).collect()
+}
 
 fn one_case(rng: &mut Rng, id: String) -> Case {
     let mut case = Case::new(id);
@@ -34,7 +45,12 @@ fn one_case(rng: &mut Rng, id: String) -> Case {
         let finish_before_accept = client_first && rng.below(2) == 0;
         // a client that sends multi-packet messages cannot finish before somebody receives (the OS transport blocks it)
         let big = !finish_before_accept && rng.below(3) == 0;
-        key.push(format!("{}:{}:{}:{}", nmsg, client_first as u8, finish_before_accept as u8, big as u8));
+        // what the first message carries besides data: an embedded sender or not, 0..2 shared memory regions (a first message
+        // with regions only and no channel goes through the bootstrap like any other); later messages carry regions too
+        let with_sender = rng.below(3) != 0;
+        let shape = rng.below(12);
+        let nreg = move |t: u64| (shape + t) % 3;
+        key.push(format!("{}:{}:{}:{}:{}:{}", nmsg, client_first as u8, finish_before_accept as u8, big as u8, with_sender as u8, shape));
         let name = names[i].clone();
         let (ptx, prx) = ipc::channel::<u64>().unwrap();
         let delay = if client_first { 0 } else { 15 };
@@ -48,7 +64,8 @@ fn one_case(rng: &mut Rng, id: String) -> Case {
             for t in 0..nmsg {
                 let len = if big && t % 2 == 0 { 300_000 } else { 10 + t as usize };
                 let body: Vec<u8> = (0..len).map(|j| (t as u8).wrapping_mul(13).wrapping_add((j % 251) as u8)).collect();
-                ok &= tx.send((t, body, if t == 0 { Some(ptx.clone()) } else { None })).is_ok();
+                let regs: Vec<IpcSharedMemory> = (0..nreg(t)).map(|r| IpcSharedMemory::from_bytes(&region(t, r, shape))).collect();
+                ok &= tx.send((t, body, if t == 0 && with_sender { Some(ptx.clone()) } else { None }, regs)).is_ok();
             }
             ok
         }));
@@ -77,6 +94,11 @@ fn one_case(rng: &mut Rng, id: String) -> Case {
             if m.0 != t || m.1 != want {
                 case.fail(format!("message {} of the client arrived as message {} / altered ({} bytes)", t, m.0, m.1.len()));
             }
+            let want: Vec<Vec<u8>> = (0..nreg(t)).map(|r| region(t, r, shape)).collect();
+            let got: Vec<Vec<u8>> = m.3.iter().map(|r| r.to_vec()).collect();
+            if got != want {
+                case.fail(format!("message {}: its {} shared memory regions arrived as {} regions / with other contents", t, want.len(), got.len()));
+            }
         };
         check(&mut case, 0, &first);
         match &first.2 {
@@ -87,7 +109,8 @@ fn one_case(rng: &mut Rng, id: String) -> Case {
                     other => case.fail(format!("the sender embedded in the first message is not the client's: {:?}", other)),
                 }
             },
-            None => case.fail("the first message lost its embedded sender".into()),
+            None if with_sender => case.fail("the first message lost its embedded sender".into()),
+            None => {},
         }
         for t in 1..nmsg {
             match rx.try_recv_timeout(Duration::from_secs(5)) {
